@@ -41,6 +41,12 @@ TR_CODES = {'source': 0, 'dest': 1, 'prepare': 2, 'before': 3, 'after': 4}
 # generator
 # ---------------------------------------------------------------------------------------------
 
+# machine names: ordinary ones, caption-like ones ending in ':' / ' ' (core stores name + ': ' and the export has to
+# take exactly that suffix off again), leading separators, inner colons, the empty name, non-ASCII
+NAMES = ['mach', 'mach', 'Stage 2:', 'Plant A: ', 'x ', ' lead', ':pre', 'a:b', '', 'M\u00fcller \u2713', '::', ' ',
+         'door: open :', 'tab\t']
+
+
 class _G(object):
     def __init__(self, rng):
         self.rng = rng
@@ -106,7 +112,7 @@ def gen_case(rng, hier, knobs=None):
             'auto_transitions': rng.random() < 0.5,
             'ignore_invalid_triggers': rng.choice([None, None, False, True, True]) if knobs.get('flags', True) else None,
             'model_attribute': 'mode' if rng.random() < knobs.get('p_attr', 0.12) else 'state',
-            'name': 'mach' if rng.random() < 0.3 else None}
+            'name': rng.choice(NAMES) if rng.random() < 0.4 else None}
     machine_cbs = {k: g.cbs(0.6) for k in MACHINE_LISTS}
     tops = rng.sample(['A', 'B', 'C', 'D'], rng.randint(2, 4))
     # states defined through an Enum (plain, IntEnum with a 0 member, str mix-in with values != names, StrEnum):
@@ -697,7 +703,8 @@ def check_faithful(exp, mk, machine, stage):
             bad('faithful.machine-list', {'key': k, 'expected': want, 'markup': got})
     o = desc['opts']
     for k, want in (('queued', o['queued']), ('send_event', o['send_event']), ('auto_transitions', o['auto_transitions']),
-                    ('ignore_invalid_triggers', o['ignore_invalid_triggers']), ('model_attribute', o['model_attribute'])):
+                    ('ignore_invalid_triggers', o['ignore_invalid_triggers']), ('model_attribute', o['model_attribute']),
+                    ('model_override', False)):
         if k not in mk or mk[k] != want or type(mk[k]) is not type(want):
             bad('faithful.option', {'key': k, 'expected': want, 'markup': mk.get(k, '<absent>')})
     if mk.get('name') != o['name']:
@@ -840,6 +847,14 @@ def check_roundtrip(exp, machine, mk, history, codec=None, twin=None):
         mk2 = json.loads(json.dumps(m2.markup))
         if codec is not None:
             info['pre'] = (codec.cfg(m2), codec.markup(mk2))
+        # the rebuilt machine carries the machine-level attributes of the original (name incl. the log prefix form,
+        # options, callback lists)
+        for attr in ('name', 'send_event', 'auto_transitions', 'ignore_invalid_triggers', 'model_attribute',
+                     'model_override', 'has_queue', 'prepare_event', 'before_state_change', 'after_state_change',
+                     'finalize_event', 'on_exception', 'on_final'):
+            a, b = getattr(machine, attr), getattr(m2, attr)
+            if a != b or type(a) is not type(b):
+                bad('roundtrip.machine-attribute-differs', {'attribute': attr, 'original': a, 'rebuilt': b})
         d = diff_paths(strip_ids(mk), strip_ids(mk2))
         info['markup_equal'] = not d
         if d:
